@@ -392,6 +392,9 @@ class Ctx:
         for l in lines:
             print(l, flush=True)
         if code == 0:
+            stale = os.path.join(rd, f"{self.prop}-{self.tier}-{self.seed}.json")
+            if os.path.exists(stale):
+                os.remove(stale)
             print(f"OK property={self.prop} tier={self.tier} evaluations={self.cov['evaluations']} "
                   f"theorems={self.proof['discharged']}/{self.proof['obligations']} wall={wall:.0f}s", flush=True)
         return code
